@@ -283,7 +283,7 @@ class Check(PropertyCheck):
                   "integers. The field surgery of the sixteen converters for integer formats 5..20 is modelled over the tnetstring value type of C36 (Model/C38_Conv.lean) and proved to write exactly the next version (conv_writes_next_version), to leave every top-level key outside a stated per-converter set untouched (conv_frame; request/id/type/error/intercepted never change: request_preserved; response only by 13->14), plus marked_migration, mode_dropped, proxy_mode_added, state_dropped, timestamp_created_from_request; the older formats 5..9 (convOld: ssl->tls renames, tls_extensions, trailers, first_line_format/authority/is_replay, the 9->10 connection rebuild incl. the nested via connection) with convOld_writes_next_version, convOld_frame, old_identity_preserved, old_request_preserved (only 7->8 and 8->9 touch the request), request_fields_8_9, trailers_added_7_8, tls_renamed_5_6; 18->19 (renames, defaults, the UTF-8/backslashreplace decode of host bytes built on the C35 decoder transcription, sni=True repair) with conv_18_19_spec, client_frame_18_19/client_renames_18_19, server_frame_18_19/server_renames_18_19, host_decode_valid_utf8/host_decode_ascii (a valid-UTF-8 host is the same text afterwards) and host_decode_escape; the two converters with PROCESS-GLOBAL tables are modelled with their tables as explicit state (Model/C38_State.lean): 11->12 with `_websocket_handshakes` (handshake_stored, ws_takes_stored_handshake, ws_without_handshake_dummy, plain_is_stateless, table_frame_11_12 and, by induction over any run of records, stored_until_consumed) and 4->5 with the connection-id tables and the uuid supply as a parameter (client_id_is_recorded_id, ids_stable_4_5, ids_stable_over_run); the release-numbered formats 0.17..3.0 (Model/C38_Tuple.lean: convert_unicode with its recursive key conversion and strict UTF-8 decode of type/id/first_line_format/error.msg, the address unwrapping of 1.0->2.0, 2.0->3.0, 3.0->4) with tuple_writes_next_version and tuple_frame_1_2_3, and the six oldest formats 0.11..0.16 over bytes keys (Model/C38_Bytes.lean: form_in/httpversion/code/content renames, body/msg renames, peer_address) with bytes_writes_next_version and bytes_frame - so EVERY converter registered in compat.converters (29) has a Lean transcription compared step by step with the real one; `migrate_flow` as a whole is composed from these transcriptions (Model/C38_Migrate.lean: version lookup under the bytes and the str key, tuple cut, the stale-version refusal, the stateful tables threaded through) with every_registered_converter_is_modelled / no_extra_converter (the model's dispatch is exactly the converter table REGENERATED from compat.py: a converter added without a transcription breaks the proof), migrate_ends_at_current, migrate_current_unchanged, migrate_fuel_irrelevant, migrate_turn_cases, migrate_turn_keeps_request, and is compared byte for byte (kind migfile) with the real migrate_flow on every record of every shipped dump, in file order and in other admissible orders, and on every downgrade case; the whole modelled chain 12->21 keeps the request and arrives at version 21 (steps_request_preserved by induction over any number of converter steps, chain_request_preserved); each step of the real converters is compared byte for byte (re-encoded tnetstring) with the Lean converter. Whole-chain behaviour is validated differentially: all shipped historical dumps, "
                   "synthetic states downgraded by inverse converters to each version 10..20, current states, and unknown "
                   "future versions go through the real migrate_flow / FlowReader / FlowWriter.")
-    level_note = ("partial: WHAT IS NOT PROVED: (i) that a record of a supported old format DOES migrate is proved for formats 19 and 20 (format_19_20_records_convert: connection records that are dicts carrying tls_version convert and arrive at version 21) and for the steps 12->18 on non-WebSocket records of the shape those formats wrote (format_12_records_convert under Shape12: marked present, response null or with a timestamp_start, websocket null, request with timestamp_start, client_conn a dict); and for 18->19 on records whose connection records have the shape formats 10..18 wrote (format_18_records_convert under Shape18: tls_extensions/tls_established present, address-like fields absent / None / a pair / text, sni a name, None, or True with the address None or a pair) - composed in format_12_records_load: a non-WebSocket format-12 record of the shape mitmproxy 7 wrote (Shape12, ConnShape) is taken through all nine converters 12->...->21 without any raising, arrives at version 21 and keeps its request (existence AND correctness for one whole format); the formats below 12 have no success theorem: there every converter theorem is conditional (\"if the converter returns, then ...\"), migrate_ends_at_current likewise; the existence half of \"loads into valid current flows\" rests on the differential runs (every shipped dump record, downgrade/conv/convt/wsseq/idseq cases) and on C36's shape gate, not on a theorem; (ii) the clause \"re-saving migrated flows and loading them again reproduces the same state\" is validated only (resave clauses of the dump/downgrade/dumpmut kinds; its two halves are theorems elsewhere: C36 read_roundtrip, migrate_current_unchanged here; host_decode_is_str removes the one obstacle in the converters); (iii) the composed loop is run by the driver with fuel 64: running out of fuel is a separate outcome (`diverged`), never confused with an exception, and an answer does not depend on the constant (migrate_fuel_irrelevant), but that 64 turns always suffice is proved only at graph level (migration_total, versions_increase) - the explanatory-error clause (which message) is likewise carried by the graph-level migrate/reject (ops mig/steps), the composed loop only says \"raised\" (migrate_turn_cases). The golden per-flow digests of the shipped dumps are a snapshot of the implementation taken on the unchanged tree (regression reference, not an independent oracle). Proved: proved are the version chain, the loop and the per-converter field facts for formats 4..20 (4->5: uuid4 is a parameter; 13->14: `float + 1` with Python's repr is a parameter answered by the harness; table keys are compared through their tnetstring encoding "
+    level_note = ("partial: WHAT IS NOT PROVED: (i) that a record of a supported old format DOES migrate is proved for formats 19 and 20 (format_19_20_records_convert: connection records that are dicts carrying tls_version convert and arrive at version 21) and for the steps 12->18 on non-WebSocket records of the shape those formats wrote (format_12_records_convert under Shape12: marked present, response null or with a timestamp_start, websocket null, request with timestamp_start, client_conn a dict); and for 18->19 on records whose connection records have the shape formats 10..18 wrote (format_18_records_convert under Shape18: tls_extensions/tls_established present, address-like fields absent / None / a pair / text, sni a name, None, or True with the address None or a pair) - composed in format_12_records_load: a non-WebSocket format-12 record of the shape mitmproxy 7 wrote (Shape12, ConnShape) is taken through all nine converters 12->...->21 without any raising, arrives at version 21 and keeps its request (existence AND correctness for one whole format; checked_shape_loads: the executable form shape12B of that shape, which the driver evaluates on every generated format-12 record and which is compared with a Python twin on the real record - about two thirds of the downgrade-to-12 cases, the non-WebSocket ones, fall under it - implies the theorem's hypotheses, and the oracle asks the real migrate_flow to return on those records); the formats below 12 have no success theorem: there every converter theorem is conditional (\"if the converter returns, then ...\"), migrate_ends_at_current likewise; the existence half of \"loads into valid current flows\" rests on the differential runs (every shipped dump record, downgrade/conv/convt/wsseq/idseq cases) and on C36's shape gate, not on a theorem; (ii) the clause \"re-saving migrated flows and loading them again reproduces the same state\" is validated only (resave clauses of the dump/downgrade/dumpmut kinds; its two halves are theorems elsewhere: C36 read_roundtrip, migrate_current_unchanged here; host_decode_is_str removes the one obstacle in the converters); (iii) the composed loop is run by the driver with fuel 64: running out of fuel is a separate outcome (`diverged`), never confused with an exception, and an answer does not depend on the constant (migrate_fuel_irrelevant), but that 64 turns always suffice is proved only at graph level (migration_total, versions_increase) - the explanatory-error clause (which message) is likewise carried by the graph-level migrate/reject (ops mig/steps), the composed loop only says \"raised\" (migrate_turn_cases). The golden per-flow digests of the shipped dumps are a snapshot of the implementation taken on the unchanged tree (regression reference, not an independent oracle). Proved: proved are the version chain, the loop and the per-converter field facts for formats 4..20 (4->5: uuid4 is a parameter; 13->14: `float + 1` with Python's repr is a parameter answered by the harness; table keys are compared through their tnetstring encoding "
                   "- an int and an equal float would differ - and only list-valued addresses are generated: what format 4 wrote for an unconnected server is not known here; 13->14 timestamp repair only for integer timestamps); str() of non-int httpversion items in 0.13->0.14 is not modelled (not generated); whole-chain behaviour from the tuple formats is "
                   "validated (goldens for shipped dumps, inverse-converter "
                   "round trips for versions 10..20). "
@@ -527,6 +527,7 @@ class Check(PropertyCheck):
             return {"unchanged": canon(out) == canon(st)}
         if k == "downgrade":
             orig, old, variant = self._downgrade_old(case)
+            shape = shape12_py(tnetstring.loads(tnetstring.dumps(old))) if case["to"] == 12 else None
             # the bare migrate_flow on the record (for the tie with the composed Lean model)
             compat._websocket_handshakes.clear()
             try: mig_out = "ok " + tnetstring.dumps(compat.migrate_flow(tnetstring.loads(tnetstring.dumps(old)))).hex()
@@ -537,7 +538,7 @@ class Check(PropertyCheck):
             try:
                 got = [f.get_state() for f in mio.FlowReader(buf).stream()]
             except exceptions.FlowReadException as e:
-                return {"error": str(e)[:200], "mig_out": mig_out}
+                return {"error": str(e)[:200], "mig_out": mig_out, "shape12": shape}
             if variant == "sni-bytes":
                 # the only intended difference: format <= 10 stored raw bytes, which read as ASCII with \xNN for the rest
                 orig["client_conn"]["sni"] = bytes.fromhex(case["sni_hex"]).decode("ascii", "backslashreplace")
@@ -553,7 +554,7 @@ class Check(PropertyCheck):
                 if canon(again) != canon(got): resave = "differs"
             except Exception as e:
                 resave = f"{type(e).__name__}: {e}"[:160]
-            return {"equal": not diff, "diff": diff[:6], "resave": resave, "mig_out": mig_out}
+            return {"equal": not diff, "diff": diff[:6], "resave": resave, "mig_out": mig_out, "shape12": shape}
         if k in ("wsseq", "idseq"):
             return {"steps": self._run_tables(case)}
         if k == "migfile":
@@ -898,6 +899,9 @@ class Check(PropertyCheck):
             if not obs["unchanged"]: fails.append("current-format state changed by migrate_flow")
         elif k == "downgrade":
             # "synthetic flow states for each historical format version … load into valid current flows" (equal to the flow they came from)
+            # checked_shape_loads, asked of the real code: a format-12 record of the proved shape must come out of migrate_flow
+            if obs.get("shape12") and not obs["mig_out"].startswith("ok "):
+                fails.append("a format-12 record of the shape Shape12/ConnShape (format_12_records_load) was not migrated by migrate_flow")
             if "error" in obs: fails.append(f"state downgraded to v{case['to']} does not load: {obs['error']}")
             elif not obs["equal"]: fails.append(f"state downgraded to v{case['to']} migrates to a different state: {obs['diff']}")
             elif obs.get("resave") != "ok": fails.append(f"flow migrated from v{case['to']} cannot be re-saved and re-loaded to the same state: {obs['resave']}")
@@ -996,7 +1000,8 @@ class Check(PropertyCheck):
             except Skip: return None
             te = (old.get("request") or {}).get("timestamp_end")
             fl = ["fadd %s %s" % (repr(te).encode().hex(), repr(te + 1).encode().hex())] if isinstance(te, float) else []
-            return ["mig int %d" % case["to"], "steps int %d" % case["to"], "tables-reset"] + fl + ["migrate %s" % tnetstring.dumps(old).hex()]
+            sh = ["shape12 %s" % tnetstring.dumps(old).hex()] if case["to"] == 12 else []
+            return ["mig int %d" % case["to"], "steps int %d" % case["to"]] + sh + ["tables-reset"] + fl + ["migrate %s" % tnetstring.dumps(old).hex()]
         if case["kind"] == "conv":
             try: _, wire = self._conv_input(case)
             except Skip: return None
@@ -1027,7 +1032,8 @@ class Check(PropertyCheck):
 
     def model_obs(self, case, replies):
         if case["kind"] == "future": return replies[0]
-        if case["kind"] == "downgrade": return replies[:2] + [" ".join(replies[-1].split()[:2])]     # the table size is not compared here
+        if case["kind"] == "downgrade":     # the table size is not compared here
+            return replies[:2] + [" ".join(replies[-1].split()[:2])] + ([replies[2]] if case["to"] == 12 else [])
         if case["kind"] in ("conv", "convt"): return replies[0]
         if case["kind"] == "migfile": return [r for r in replies[1:] if r != "ok"]     # drop the acknowledgements of `fadd` lines
         if case["kind"] in ("wsseq", "idseq"):
@@ -1047,7 +1053,8 @@ class Check(PropertyCheck):
             known = (tuple(v)[:2] if isinstance(v, list) else v) in compat.converters or v == version.FLOW_FORMAT_VERSION
             return "ok" if (known and obs["migrate"] == "ok") else {"update": "errUpdate", "unknown": "errUnknown", "ok": "ok"}[obs["migrate"]]
         if case["kind"] == "downgrade":
-            return (["ok", str(version.FLOW_FORMAT_VERSION - case["to"])] if "error" not in obs else ["err", "?"]) + [obs["mig_out"]]
+            return (["ok", str(version.FLOW_FORMAT_VERSION - case["to"])] if "error" not in obs else ["err", "?"]) + [obs["mig_out"]] + \
+                   (["1" if obs["shape12"] else "0"] if case["to"] == 12 else [])
         if case["kind"] in ("conv", "convt"):
             return "none" if obs["out"] is None else "ok " + obs["out"]
         if case["kind"] in ("wsseq", "migfile"):
@@ -1083,7 +1090,8 @@ class Check(PropertyCheck):
         if case["kind"] == "migfile": return ["migfile:" + os.path.basename(case["file"])]
         if case["kind"] == "wsseq": return ["wsseq"] + sorted({"wsseq:" + r["role"] for r in case["recs"]})
         if case["kind"] == "idseq": return ["idseq"] + (["idseq:via"] if any(r["via"] is not None for r in case["recs"]) else [])
-        return [case["kind"] + (":v%d" % case["to"] if case["kind"] == "downgrade" else "")]
+        return [case["kind"] + (":v%d" % case["to"] if case["kind"] == "downgrade" else "")] + \
+               (["shape12:%d" % int(bool(obs.get("shape12")))] if case["kind"] == "downgrade" and case.get("to") == 12 and obs else [])
 
     def describe(self, case, obs):
         c = dict(case)
@@ -1115,6 +1123,30 @@ CONV_TWEAKS = {5: ["via-conn", "no-ssl"], 7: ["resp-none", "no-request", "req-in
                20: ["quic", "quic-server"]}
 def _hx(v):
     return v.hex() if isinstance(v, bytes) else str(v).encode("utf-8", "surrogateescape").hex()
+
+
+def shape12_py(d):
+    """Python twin of Lean `shape12B` (Model/C38_Migrate.lean): the shape under which format_12_records_load proves that the record loads"""
+    def truthy(v): return bool(v)
+    def host_ok(c, k):
+        if k not in c: return True
+        v = c[k]
+        return (not truthy(v)) or isinstance(v, (list, tuple, str, bytes))
+    if not isinstance(d, dict) or "marked" not in d: return False
+    r = d.get("response", 0)
+    if not (r is None or (isinstance(r, dict) and r.get("timestamp_start", None) is not None)): return False
+    if "websocket" not in d or d["websocket"] is not None: return False
+    rq = d.get("request")
+    if not (isinstance(rq, dict) and "timestamp_start" in rq): return False
+    cc, sc = d.get("client_conn"), d.get("server_conn")
+    if not (isinstance(cc, dict) and isinstance(sc, dict)): return False
+    if not all(k in cc for k in ("tls_extensions", "tls_established", "tls_version")): return False
+    if not all(k in sc for k in ("tls_established", "tls_version", "sni")): return False
+    if not (host_ok(cc, "address") and host_ok(cc, "sockname") and host_ok(sc, "ip_address") and host_ok(sc, "source_address") and host_ok(sc, "address")): return False
+    if sc["sni"] is True:
+        a = sc.get("address", 0)
+        if not (a is None or (isinstance(a, (list, tuple)) and len(a) > 0)): return False
+    return True
 
 
 def ref_backslash_utf8(b):
